@@ -306,3 +306,21 @@ func VerifSendCoalesced(c *Conn, prefix []byte, nKeyUpdates int, requestUpdate b
 	}
 	return nil
 }
+
+// VerifSetSeq sets the record sequence numbers of a connection's read and write halves,
+// to reach sequence positions that would otherwise take 2^24 and more real writes (the
+// peer must be set to the mirrored values).
+func VerifSetSeq(c *Conn, in, out uint64) {
+	c.in.Lock()
+	for i := 7; i >= 0; i-- {
+		c.in.seq[i] = byte(in)
+		in >>= 8
+	}
+	c.in.Unlock()
+	c.out.Lock()
+	for i := 7; i >= 0; i-- {
+		c.out.seq[i] = byte(out)
+		out >>= 8
+	}
+	c.out.Unlock()
+}
